@@ -108,7 +108,7 @@ func runC06(p *Program, r *Report) {
 			src := pv.Of(cp.Common().Args[0])
 			c := "template.(*escaper).escapeTree#derived-copy-source"
 			pos := p.Pos(cp.Pos())
-			liveTree := src.Op == "field" && src.Name == "Tree" && len(src.Args) == 1 && src.Args[0].Op == "call" && src.Args[0].Fn != nil && src.Args[0].Fn.Name() == "template"
+			liveTree := src.Op == "field" && src.Name == "Tree" && len(src.Args) == 1 && src.Args[0].Op == "call" && src.Args[0].Fn != nil && src.Args[0].Fn == findEscaperTemplateLookup(p)
 			if !liveTree {
 				r.OK("C06.R3", c, pos, "the copy is not taken from the live tree of a template of the set: "+src.String())
 				continue
